@@ -32,6 +32,7 @@ impl RequestHandler<DocumentSymbolRequest> for DocumentSymbolRequestHandler {
                         codegen,
                         filename: file.file.name(),
                         recurse: false,
+                        importing: vec![file.file.name()],
                     };
                     let docsyms = emitter.emit_document_symbols(&file.tokens, None);
                     let document_symbols = docsyms
@@ -60,6 +61,7 @@ impl RequestHandler<WorkspaceSymbol> for WorkspaceSymbolHandler {
                         codegen,
                         filename: file.file.name(),
                         recurse: true,
+                        importing: vec![file.file.name()],
                     };
                     let docsyms = emitter.emit_document_symbols(&file.tokens, None);
                     let workspace_symbols = docsyms
@@ -131,6 +133,8 @@ struct DocSymEmitter<'a> {
     codegen: Arc<Mutex<CodegenContext>>,
     filename: &'a str,
     recurse: bool,
+    /// The files whose symbols are being emitted (imports may be cyclic)
+    importing: Vec<&'a str>,
 }
 
 impl<'a> DocSymEmitter<'a> {
@@ -163,12 +167,20 @@ impl<'a> DocSymEmitter<'a> {
             } => {
                 let mut result = vec![];
                 if self.recurse {
-                    if let Some(file) = self.tree.try_get_file(&resolved_path) {
+                    // A file that is already being emitted imports itself (directly or not): don't descend again
+                    if let Some(file) = self
+                        .tree
+                        .try_get_file(&resolved_path)
+                        .filter(|file| !self.importing.contains(&file.file.name()))
+                    {
+                        let mut importing = self.importing.clone();
+                        importing.push(file.file.name());
                         let emitter = DocSymEmitter {
                             tree: self.tree,
                             codegen: self.codegen.clone(),
                             filename: file.file.name(),
                             recurse: self.recurse,
+                            importing,
                         };
                         result.extend(emitter.emit_document_symbols(&file.tokens, None));
                     }
